@@ -187,13 +187,13 @@ def shard_names(rec, part, parts):
     for i, (name, mk) in enumerate(fam):
         if i % parts != part or name.startswith('cells:6') or name.startswith('payload:6') or name.startswith('payload:3'):
             continue
-        for oi in range(6):
+        for oi in range(len(bocfam.OPTION_SETS)):
             case_dag(rec, name, oi)
         if i < 2:
             rec.sample({'dag': name, 'option_sets': [bocfam.opt_name(o) for o in bocfam.OPTION_SETS], 'encodings': ENCODINGS, 'entries': ENTRIES})
 
 
 def shard_one(rec, name):
-    for oi in range(6):
+    for oi in range(len(bocfam.OPTION_SETS)):
         case_dag(rec, name, oi)
     rec.sample({'dag': name, 'option_sets': 'all 6'})
